@@ -9,10 +9,12 @@ TWO_STAGE = True
 def gen(rng, tier):
     cases = []
     for _ in range(300 if tier == "quick" else 8000):
-        G, fam = common.random_connected_graph(rng, 1, 6 if tier == "quick" else 8)
+        G, fam = common.random_connected_graph(rng, 1, 6 if tier == "quick" else 8, large_ok=True)
         g = common.genus(G); opt = rng.random() < 0.35 and g >= 1
         D = common.random_divisor(rng, G, band="low" if opt else None)
         if opt and not (0 <= sum(D) < g): opt = False
+        if rng.random() < 0.08 and G["edges"]:
+            G, D = common.scale_game(rng, G, D); fam = fam + "*2^k"; opt = opt and 0 <= sum(D) < common.genus(G)
         cases.append({"G": G, "D": D, "opt": opt, "fam": fam, "s": rng.randrange(1 << 30)})
     return cases
 
